@@ -127,8 +127,14 @@ func AddressedPaths(op Operation) (addressedPaths [][]string) {
 				}
 
 			case *opFunction:
-				for _, p := range vv.Params.Paths() {
-					addressedPaths = append(addressedPaths, AddressedPaths(p.Value)...)
+				for _, param := range vv.Params {
+					// an argument that is a path or a group of paths navigates its own chains
+					switch pt := param.(type) {
+					case *FP_Path:
+						addressedPaths = append(addressedPaths, AddressedPaths(pt.Value)...)
+					case *FP_LogicalOperation:
+						addressedPaths = append(addressedPaths, AddressedPaths(pt.Value)...)
+					}
 				}
 			}
 		}
